@@ -5,6 +5,9 @@
  *   q <hash-imprint-hex> <level> <ver> <login-hex> <key-hex>
  *       the request the blocking interface sends: KSI_createSignRequest + KSI_sendSignRequest, octets handed to the transport
  *     => Q<status> [<request-hex>]
+ *   q2 <hash-imprint-hex> <level> <ver> <loginA-hex> <keyA-hex> <loginB-hex> <keyB-hex>    aggregator (A) and extender (B) on the TCP
+ *       transport, the extender configured last: the prepared sign request          => Q<status> [<request-hex>]
+ *   qh <hash-imprint-hex> <level> <key-hex>   what the high-availability service sends for a signing handle => Q<status> [<sent-hex>]
  *   as <hash-imprint-hex> <level> <key-hex> <reply-stream-hex>
  *       the asynchronous signing service on a scripted socket (PDU v2; the first request gets id 1): add the request, let the
  *       service send it and read the stream, then KSI_AsyncHandle_getSignature on the handle that comes back
@@ -70,6 +73,52 @@ static void do_line(char *work, const char *orig) {
 		}
 		KSI_RequestHandle_free(handle); KSI_AggregationReq_free(req); KSI_DataHash_free(hsh); KSI_CTX_free(ctx);
 		unlink(uri + 7); free(h); free(login); free(key);
+	} else if (n >= 8 && !strcmp(w[0], "q2")) {
+		/* aggregator and extender both on the TCP transport, each with its own credentials, the extender configured last: the sign
+		 * request as prepared for the aggregator (nothing is sent) */
+		KSI_CTX *ctx = NULL; KSI_DataHash *hsh = NULL; KSI_AggregationReq *req = NULL; KSI_RequestHandle *handle = NULL; size_t hl; int r;
+		unsigned char *h = unhex(w[1], &hl); char *la = cstr_of(w[4]), *ka = cstr_of(w[5]), *lb = cstr_of(w[6]), *kb = cstr_of(w[7]);
+		KSI_CTX_new(&ctx);
+		KSI_CTX_setOption(ctx, KSI_OPT_AGGR_PDU_VER, (void *)(size_t)atoi(w[3]));
+		KSI_CTX_setAggregator(ctx, "ksi+tcp://127.0.0.1:1", la, ka);
+		KSI_CTX_setExtender(ctx, "ksi+tcp://127.0.0.1:2", lb, kb);
+		if (KSI_DataHash_fromImprint(ctx, h, hl, &hsh) != KSI_OK) printf("BAD-HASH");
+		else {
+			r = KSI_createSignRequest(ctx, hsh, atoi(w[2]), &req);
+			if (r == KSI_OK) r = KSI_sendSignRequest(ctx, req, &handle);
+			printf("Q%d", r);
+			if (r == KSI_OK) { const unsigned char *rq = NULL; size_t ql = 0; KSI_RequestHandle_getRequest(handle, &rq, &ql); putchar(' '); puthex(stdout, rq, ql); }
+		}
+		KSI_RequestHandle_free(handle); KSI_AggregationReq_free(req); KSI_DataHash_free(hsh); KSI_CTX_free(ctx);
+		free(h); free(la); free(ka); free(lb); free(kb);
+	} else if (n >= 4 && !strcmp(w[0], "qh")) {
+		/* the request the high-availability service (two sub-services on the scripted socket) sends for a signing handle */
+		KSI_CTX *ctx = NULL; KSI_AsyncService *as = NULL; KSI_AsyncHandle *h = NULL, *out = NULL; KSI_DataHash *hsh = NULL; size_t hl, waiting = 0; int r, k;
+		unsigned char *hb = unhex(w[1], &hl); char *key = cstr_of(w[3]); static char rs[64], ss[64];
+		KSI_CTX_new(&ctx);
+		KSI_CTX_setOption(ctx, KSI_OPT_AGGR_PDU_VER, (void *)(size_t)2);
+		g_nconn = 0; g_now = 1000; g_poll_ret = 1; g_revents = POLLIN | POLLOUT; g_connect_ok = 1; g_spos = 0; g_slen = 0;
+		if (KSI_SigningHighAvailabilityService_new(ctx, &as) != KSI_OK) { printf("NEW-FAILED"); return; }
+		KSI_AsyncService_setEndpoint(as, "ksi+tcp://sim1.host:1234", "anon", key);
+		KSI_AsyncService_setEndpoint(as, "ksi+tcp://sim2.host:1234", "anon", key);
+		if (KSI_DataHash_fromImprint(ctx, hb, hl, &hsh) != KSI_OK) printf("BAD-HASH");
+		else {
+			r = KSI_AsyncSigningHandle_new(ctx, hsh, strtoull(w[2], NULL, 10), &h);
+			if (r == KSI_OK) { r = KSI_AsyncService_addRequest(as, h); if (r != KSI_OK) KSI_AsyncHandle_free(h); }
+			else KSI_DataHash_free(hsh);
+			printf("Q%d", r);
+			if (r == KSI_OK) {
+				strcpy(rs, "w"); strcpy(ss, "-"); g_rp = rs; g_sp = ss; g_stream = hb; g_slen = 0;
+				KSI_AsyncService_run(as, &out, &waiting);
+				KSI_AsyncHandle_free(out);
+				putchar(' ');
+				if (g_nconn > 0) puthex(stdout, g_conn[0], g_connlen[0]); else putchar('-');
+			}
+		}
+		for (k = 0; k < g_nconn; k++) free(g_conn[k]);
+		g_nconn = 0;
+		KSI_AsyncService_free(as); KSI_CTX_free(ctx);
+		free(hb); free(key);
 	} else if ((n >= 5 && !strcmp(w[0], "as")) || (n >= 6 && !strcmp(w[0], "as2"))) {
 		int two = !strcmp(w[0], "as2"); size_t rn2 = 0; unsigned char *reply2 = two ? unhex(w[5], &rn2) : NULL;
 		KSI_CTX *ctx = NULL; KSI_AsyncService *as = NULL; KSI_AsyncHandle *h = NULL, *out = NULL, *got = NULL; KSI_DataHash *hsh = NULL;
